@@ -15,7 +15,7 @@ EXTENDS Naturals, Integers, Sequences, FiniteSets, TLC, Json, IOUtils
 
 CborDecoders == {"mcReq", "mcResp", "gaReq", "gaResp", "info", "hmac", "cose", "bytesCbor"}
 JsonDecoders == {"jsonCreate", "jsonGet", "jsonCreated", "jsonAssertion", "clientData", "bytesJson"}
-RawDecoders  == {"authdata", "u2fRequest", "u2fRegister", "u2fAuth", "hid", "bytesStr", "fingerprint", "psl", "rpid"}
+RawDecoders  == {"authdata", "u2fRequest", "u2fRegister", "u2fAuth", "hid", "bytesStr", "fingerprint", "psl", "rpid", "salts"}
 Decs == CborDecoders \cup JsonDecoders \cup RawDecoders
 
 Generic == {"valid", "truncate", "extend", "bitflip", "byteset", "empty", "random", "repeat"}
@@ -36,6 +36,9 @@ Cases ==
     \* text inputs with characters whose case mapping changes their length, that IDNA maps to a dot or to nothing,
     \* combining marks, bidi controls, NUL
     [dec : {"psl", "rpid", "fingerprint", "bytesStr", "clientData", "jsonCreate", "jsonGet"}, mut : {"unicode"}, arg : {"none"}] \cup
+    \* inputs of a fixed size given with every length around its multiples
+    [dec : {"salts", "u2fRegister", "u2fAuth", "fingerprint", "bytesStr", "authdata"}, mut : {"setlen"},
+     arg : {"0", "1", "31", "32", "33", "63", "64", "65", "95", "96", "97", "128", "160", "4096"}] \cup
     \* a string member resized consistently (well-formed CBOR, unexpected member length: key coordinates, hashes, ids)
     [dec : CborDecoders \cup {"authdata"}, mut : {"resize"}, arg : {"zero", "minus1", "plus1", "double"}] \cup
     [dec : CborDecoders, mut : {"bigseq"}, arg : BigSeq] \cup
